@@ -28,7 +28,9 @@ RULE = ('(a) process_renames is called directly with each of the three real coll
         'parse(new) = rename of parse(old), stored parsed form = parse(stored text), column lists and lookup columns '
         'follow, unparsable formulas stay and do not block the rename. A case is non-trivial when at least one entity '
         'was collected (a, b) / at least one stored formula, list or lookup column changed (c).')
-TRUSTED = ['CPython parser, asttokens (last_token.startpos of Attribute nodes), codebuilder.get_dollar_replacer: oracles '
+TRUSTED = ['pf2v translator (harness/pf2v.py): the collectors\' visit_Attribute methods and the TreeConverter methods -> Gallina, '
+           'validated on every run against the entities of the running collectors',
+           'CPython parser, asttokens (last_token.startpos of Attribute nodes), codebuilder.get_dollar_replacer: oracles '
            'mapped to the model by harness/props/c17.py; the mapped `$` offsets are re-checked in Coq '
            '(undollar_text formula dollars = the $-free text)',
            'Parser compositionality (replacing an identifier token by an identifier renames that node only): not proved; '
@@ -54,6 +56,64 @@ Z, S = predgen.Z, predgen.S
 KINDS = ['ACL', 'DC', 'Trigger']
 ENT_COQ = {'recCol': 'RecCol', 'userAttr': 'UserAttr', 'userAttrCol': 'UserAttrCol', 'choiceAttr': 'ChoiceAttr'}
 NEW_NAMES = ['Z', 'A2', 'name', 'Family_Name', 'x', 'rec', 'user', 'B', 'été', 'a_very_long_new_name']
+
+
+GEN_IMPORTS = IMPORTS + ['Grist.Model.PredVisit', 'GristGen.Predicate_gen']
+# the generated collectors (gen_visit (Some k)) against the entities of the running collectors
+GEN_DEFS = '''
+Definition ent_type_name (t : ent_type) : str :=
+  match t with
+  | RecCol => lit "recCol" | UserAttr => lit "userAttr" | UserAttrCol => lit "userAttrCol" | ChoiceAttr => lit "choiceAttr"
+  end.
+Definition gent_of (e : entity) : gent :=
+  (ent_type_name (e_type e), e_pos e, e_name e, option_map (fun a => PLeaf (CStr a)) (e_extra e)).
+Definition gent_eqb (a b : gent) : bool :=
+  match a, b with
+  | (t1, p1, n1, x1), (t2, p2, n2, x2) =>
+      str_eqb t1 t2 && (p1 =? p2) && str_eqb n1 n2 &&
+      match x1, x2 with Some u, Some v => pyval_eqb u v | None, None => true | _, _ => false end
+  end.
+Definition c17_gen_ok (c : c17_case) : bool :=
+  match rc_ast c with
+  | None => true
+  | Some e =>
+      wf_expr e &&
+      match gen_visit (Some (rc_collector c)) e [], rc_entities c with
+      | GOk (_, ents), Some l => list_eqb_with gent_eqb ents (map gent_of l)
+      | GFail (GErr _), None => true
+      | _, _ => false
+      end
+  end.
+'''
+
+
+def regenerate(ctx):
+  """coq/gen/Predicate_gen.v from the visitor methods of the tree being checked (fail closed)."""
+  from harness import pf2v
+  try:
+    text = pf2v.translate(core.GRIST)
+  except pf2v.Untranslatable as e:
+    raise core.TieBroken('predicate_formula / collector methods are outside the translated subset: %s' % e)
+  core.write_if_changed(os.path.join(core.COQ, 'gen', 'Predicate_gen.v'), text)
+  from harness import pr2v
+  try:
+    acl_text = PR_HEADER + pr2v.translate_perform_acl(os.path.join(core.GRIST, 'acl.py'))
+  except pr2v.Untranslatable as e:
+    raise core.TieBroken('acl.perform_acl_rule_renames is outside the translated subset: %s' % e)
+  core.write_if_changed(os.path.join(core.COQ, 'gen', 'PerformAcl_gen.v'), acl_text)
+  ctx.extra['regenerated'] = ['coq/gen/Predicate_gen.v: %d definitions generated from predicate_formula.py, acl.py, '
+                              'dropdown_condition.py, trigger_expression.py' % text.count('\nDefinition '),
+                              'coq/gen/PerformAcl_gen.v: gen_perform_acl generated from acl.perform_acl_rule_renames']
+
+
+PR_HEADER = '''(* GENERATED by harness/pr2v.py from acl.perform_acl_rule_renames -- do not edit. *)
+From Coq Require Import ZArith List Bool String.
+Import ListNotations.
+Require Import Grist.Model.Predicate Grist.Model.PredicateRename.
+Open Scope Z_scope.
+Open Scope list_scope.
+
+'''
 
 
 def collector_class(kind):
@@ -398,15 +458,25 @@ def correspond(ctx):
       sample={'formula': formula[:160], 'collector': kind, 'renamer': term[:200], 'result': result[-1][:160]}
       if changed and len(ctx.samples) < 6 else None)
   ctx.log('process_renames / perform_* cases: %d; colIds cases: %d; lookup cases: %d' % (len(coq), len(colcases), len(lookcases)))
-  check = 'c17_case_ok'
-  for k in ctx.run_cases('renames', IMPORTS, check, coq, shard=110)[:6]:
+  both = ctx.run_cases('renames', GEN_IMPORTS, 'fun c => c17_case_ok c && c17_gen_ok c', coq, shard=110, extra_defs=GEN_DEFS)
+  bad, genbad = [], []
+  if both:
+    sub = [coq[k] for k in both]
+    bad = [both[j] for j in ctx.run_cases('renames_model', IMPORTS, 'c17_case_ok', sub, shard=110)]
+    genbad = [both[j] for j in ctx.run_cases('renames_gen', GEN_IMPORTS, 'c17_gen_ok', sub, shard=110, extra_defs=GEN_DEFS)]
+  ctx.extra['translator_validation'] = {'generated_collectors_vs_running_collectors_cases': len(coq), 'differ': len(genbad)}
+  for k in bad[:6]:
     ctx.broken('correspondence:Model.PredicateRename.process_renames differs from the running code',
                'formula %r via %s collector %s renamer %s: implementation %r' % meta[k])
+  for k in genbad[:4]:
+    ctx.broken('translation:generated collector (pf2v) differs from the running collector',
+               'formula %r via %s collector %s' % meta[k][:3])
   for k in ctx.run_cases('colids', IMPORTS, 'c17_colids_ok', colcases, shard=600)[:4]:
     ctx.broken('correspondence:Model.PredicateRename.rename_colids differs from perform_acl_rule_renames', colcases[k][-400:])
   for k in ctx.run_cases('lookup', IMPORTS, 'c17_lookup_ok', lookcases, shard=600)[:4]:
     ctx.broken('correspondence:Model.PredicateRename.rename_lookup differs from perform_acl_rule_renames', lookcases[k][-400:])
   ctx.log('model evaluated on all cases')
+  validate_pr2v(ctx)
   ctx.bump('colids-cases', len(colcases))
   ctx.bump('lookup-cases', len(lookcases))
 
@@ -573,3 +643,127 @@ def replay(ctx, w):
     if want is None or kind == want:
       return what
   return None
+
+
+# ---------------------------------------------------------------------------------------------
+# Validation of the pr2v translation of acl.perform_acl_rule_renames: the generated function, with concrete
+# stand-ins for its opaque primitives, against the running function with the same stand-ins patched in.
+
+PR_IMPORTS = IMPORTS + ['GristGen.PerformAcl_gen']
+PR_DEFS = '''
+Fixpoint assoc_string (k : string) (l : list (string * str)) : option str :=
+  match l with [] => None | (k', v) :: t => if String.eqb k k' then Some v else assoc_string k t end.
+Fixpoint set_assoc (k : string) (v : str) (l : list (string * str)) : list (string * str) :=
+  match l with [] => [(k, v)] | (k', v') :: t => if String.eqb k k' then (k, v) :: t else (k', v') :: set_assoc k v t end.
+Definition lits (s : string) : str := lit s.
+Definition vprims (jt : list (str * list (string * str))) (rt : list (Z * str)) (subj : list (str * list gsubject)) : acl_prims := {|
+  info := list (string * str);
+  json_loads := fun s => assoc_str s jt;
+  info_get := fun i k => assoc_string k i;
+  info_set := fun i k v => set_assoc k v i;
+  json_dumps := fun i => List.concat (map (fun kv => lit (fst kv) ++ lit "=" ++ snd kv ++ lit ";") i);
+  resource_tableId := fun z => match find (fun p => fst p =? z) rt with Some p => snd p | None => lit "<no such resource>" end;
+  process_renames_acl := fun f r =>
+    f ++ lit "|" ++ List.concat (map (fun s => match r s with Some n => n | None => lit "-" end ++ lit ",")
+                                     (match assoc_str f subj with Some l => l | None => [] end));
+  parse_json := fun s => lit "P:" ++ s |}.
+Definition upd_eqb (a b : upd) : bool :=
+  list_eqb_with (fun x y => String.eqb (fst x) (fst y) && str_eqb (snd x) (snd y)) a b.
+Definition res_eqb (a b : resource) : bool := str_eqb (res_tableId a) (res_tableId b) && str_eqb (res_colIds a) (res_colIds b).
+Definition rule_eqb (a b : rule) : bool :=
+  (rule_resource a =? rule_resource b) && str_eqb (rule_aclFormula a) (rule_aclFormula b)
+  && str_eqb (rule_userAttributes a) (rule_userAttributes b).
+Definition pr_case_ok (c : list (str * list (string * str)) * list (Z * str) * list (str * list gsubject) * renames *
+                           list resource * list rule * (list (resource * upd) * list (rule * upd))) : bool :=
+  match c with (jt, rt, subj, rs, resources, rules, (o1, o2)) =>
+    match gen_perform_acl (vprims jt rt subj) rs resources rules with
+    | (g1, g2) => list_eqb_with (fun x y => res_eqb (fst x) (fst y) && upd_eqb (snd x) (snd y)) g1 o1
+                  && list_eqb_with (fun x y => rule_eqb (fst x) (fst y) && upd_eqb (snd x) (snd y)) g2 o2
+    end
+  end.
+'''
+
+
+def pr_case(rng):
+  """One random call of the running perform_acl_rule_renames with stand-in primitives; returns the Coq case."""
+  import acl
+  import predicate_formula
+  from predicate_formula import NamedEntity
+  attrs = ['Cust', 'Sch', 'Oth']
+  tables = ['T', 'C', 'Other']
+  cols = ['A', 'B', 'Name']
+  def subjects():
+    out = []
+    for _ in range(rng.randint(0, 4)):
+      ty = rng.choice(['recCol', 'recCol', 'userAttrCol', 'userAttr', 'choiceAttr'])
+      out.append(NamedEntity(ty, 0, rng.choice(cols), rng.choice(attrs + ['Zzz']) if ty == 'userAttrCol' else None))
+    return out
+  renames = {(rng.choice(tables), rng.choice(cols)): rng.choice(NEW_IDS + ['']) for _ in range(rng.randint(1, 4))}
+  resources = [types.SimpleNamespace(id=i + 1, tableId=rng.choice(tables + ['*']),
+                                     colIds=rng.choice(['*', '', 'A', 'A,B', 'Name,A,B', 'A,,B', 'B']))
+               for i in range(rng.randint(1, 4))]
+  by_id = {r.id: r for r in resources}
+  rules, subj = [], {}
+  for i in range(rng.randint(1, 6)):
+    k = rng.random()
+    ua, formula = '', ''
+    if k < 0.45:
+      info = {'name': rng.choice(attrs), 'tableId': rng.choice(tables), 'lookupColId': rng.choice(cols), 'charId': 'Email'}
+      for key in ('name', 'tableId', 'lookupColId'):
+        if rng.random() < 0.1:
+          del info[key]
+      ua = rng.choice([json.dumps(info)] * 6 + ['not json', '[1, 2]'])
+    if k > 0.35:
+      formula = 'formula%d' % rng.randint(0, 3)
+      subj.setdefault(formula, subjects())
+    rules.append(types.SimpleNamespace(id=10 + i, resource=rng.choice(list(by_id)), aclFormula=formula, userAttributes=ua))
+  ua = StubUA(aclResources=types.SimpleNamespace(all=resources, table=types.SimpleNamespace(get_record=by_id.get)),
+              aclRules=types.SimpleNamespace(all=rules))
+  fake_pr = lambda f, collector, renamer: f + '|' + ''.join(
+    (lambda n: n if n is not None else '-')(renamer(s)) + ',' for s in subj.get(f, []))
+  saved = (predicate_formula.process_renames, acl.parse_predicate_formula_json)
+  predicate_formula.process_renames, acl.parse_predicate_formula_json = fake_pr, (lambda s: 'P:' + s)
+  try:
+    acl.perform_acl_rule_renames(ua, renames)
+  finally:
+    predicate_formula.process_renames, acl.parse_predicate_formula_json = saved
+  def info_term(text):
+    try:
+      d = json.loads(text)
+    except ValueError:
+      return None
+    if not isinstance(d, dict):
+      return None
+    return core.coq_list(['(%s, %s)' % (predgen.coq_str(k), S(v)) for k, v in d.items()])
+  res_t = lambda r: '{| res_tableId := %s; res_colIds := %s |}' % (S(r.tableId), S(r.colIds))
+  rule_t = lambda r: '{| rule_resource := %s; rule_aclFormula := %s; rule_userAttributes := %s |}' % (
+    Z(r.resource), S(r.aclFormula), S(r.userAttributes))
+  def upd_t(vals):
+    items = []
+    for k, v in vals.items():
+      if k == 'userAttributes':
+        v = ''.join('%s=%s;' % kv for kv in json.loads(v).items())
+      items.append('(%s, %s)' % (predgen.coq_str(k), S(v)))
+    return core.coq_list(items)
+  jt = core.coq_list(['(%s, %s)' % (S(r.userAttributes), info_term(r.userAttributes)) for r in rules
+                      if r.userAttributes and info_term(r.userAttributes) is not None])
+  rt = core.coq_list(['(%s, %s)' % (Z(r.id), S(r.tableId)) for r in resources])
+  st = core.coq_list(['(%s, %s)' % (S(f), core.coq_list(['(%s, %s, %s)' % (S(s.type), S(s.name), core.optlit(s.extra, S)) for s in l]))
+                      for f, l in subj.items()])
+  o1 = core.coq_list(['(%s, %s)' % (res_t(r), upd_t(v)) for r, v in ua.updates.get('_grist_ACLResources', [])])
+  o2 = core.coq_list(['(%s, %s)' % (rule_t(r), upd_t(v)) for r, v in ua.updates.get('_grist_ACLRules', [])])
+  n_updates = len(ua.updates.get('_grist_ACLResources', [])) + len(ua.updates.get('_grist_ACLRules', []))
+  return '(%s, %s, %s, %s, %s, %s, (%s, %s))' % (jt, rt, st, coq_renames(renames), core.coq_list([res_t(r) for r in resources]),
+                                                 core.coq_list([rule_t(r) for r in rules]), o1, o2), n_updates
+
+
+def validate_pr2v(ctx):
+  cases, hits = [], 0
+  for _ in range(ctx.n(80, 1200)):
+    c, n = pr_case(ctx.rng)
+    cases.append(c)
+    hits += n > 0
+  bad = ctx.run_cases('pr2v', PR_IMPORTS, 'pr_case_ok', cases, shard=300, extra_defs=PR_DEFS)
+  ctx.extra['translator_validation_perform_acl'] = {'cases': len(cases), 'with_updates': hits, 'differ': len(bad)}
+  for k in bad[:3]:
+    ctx.broken('translation:generated perform_acl_rule_renames (pr2v) differs from the running function', cases[k][-600:])
